@@ -223,6 +223,23 @@ theorem not_modified_only_if_fresh (cfg : Cfg) (s : Store) (now : Nat) (r : Req)
         · simp [hi] at h
       · simp only [hg, Bool.false_eq_true, ↓reduceIte, miss_reply] at h; cases h
 
+
+/-- the same in the statement's words — "not older, to the second": the entry's creation second is at most the
+client's. The code compares `t ≥ created − 1 s` on the exact creation time, which is this for every creation time
+that is not a whole number of seconds; an entry created on the very tick of a second (`createdMs % 1000 = 0`, one
+clock reading in 10⁹ at nanosecond resolution) is the one case where a copy one second older still gets 304
+(`not_modified_boundary`) — recorded in DESIGN §8, not exhibitable on the real clock. -/
+theorem not_modified_to_the_second (cfg : Cfg) (s : Store) (now : Nat) (r : Req) (c : Out)
+    (h : (handle cfg s now r c).2 = .notModified) :
+    ∃ k e t, get s k = some e ∧ r.imsS = some t ∧ (e.createdMs % 1000 ≠ 0 → t ≥ e.createdMs / 1000) ∧
+      t + 1 ≥ e.createdMs / 1000 := by
+  obtain ⟨k, e, t, h1, _, _, _, _, h6, h7⟩ := not_modified_only_if_fresh cfg s now r c h
+  exact ⟨k, e, t, h1, h6, by omega, by omega⟩
+
+/-- the boundary, as a witness: created at 10.000 s, the client's copy is from second 9 -/
+theorem not_modified_boundary :
+    imsFresh {} ⟨true, [], none, true, some 9⟩ ⟨⟨200, 0, 60, .full, false, false, none⟩, 10000⟩ = true := by decide
+
 /-- **cleared pages are recomputed**: right after `clear_page` (or `clear_response_caches`) a request for that
 page is computed, whatever was stored before. -/
 theorem miss_of_absent (cfg : Cfg) (s0 : Store) (now : Nat) (r : Req) (c : Out)
